@@ -16,11 +16,11 @@ import (
 // Constants are the public mainnet values, typed in here as hex (not imported from the repository).
 
 const (
-	refLidoBLSPubkeyHex       = "b67aca71f04b673037b54009b760f1961f3836e5714141c892afdb75ec0834dce6784d9c72ed8ad7db328cff8fe9f13e"
-	refLidoExecutionAddrHex   = "b9d7934878b5fb9610b3fe8a5e441e8fad7e293f"
-	refGenesisValidatorsRoot  = "4b363db94e286120d76eb905340fdd4e54bfe9f06bf33ff6cf5ad27f511bfe95"
-	refDomainBLSToExecChange  = "0a000000"
-	refGenesisForkVersion     = "00000000"
+	refLidoBLSPubkeyHex      = "b67aca71f04b673037b54009b760f1961f3836e5714141c892afdb75ec0834dce6784d9c72ed8ad7db328cff8fe9f13e"
+	refLidoExecutionAddrHex  = "b9d7934878b5fb9610b3fe8a5e441e8fad7e293f"
+	refGenesisValidatorsRoot = "4b363db94e286120d76eb905340fdd4e54bfe9f06bf33ff6cf5ad27f511bfe95"
+	refDomainBLSToExecChange = "0a000000"
+	refGenesisForkVersion    = "00000000"
 )
 
 //go:embed payloads_ref.csv
